@@ -18,7 +18,9 @@ import (
 	"pgregory.net/rapid"
 
 	"verif/harness/ref"
+	"verif/harness/portres"
 	"verif/harness/sim"
+	"verif/harness/statpurge"
 	"verif/harness/tcpsim"
 	"verif/harness/vh"
 )
@@ -134,11 +136,13 @@ func checkStop(c stopCase) (nt bool, v *verdict) {
 	// port: occupied by a plain (non reuseport) listener for the first retries
 	var port uint32
 	var occupier net.Listener
-	if c.DrainOnly && c.Occupied == 0 {
-		// a known port, so the listener can be probed even if it never reports its address
-		if l, err := net.Listen("tcp", "127.0.0.1:0"); err == nil {
-			port = uint32(l.Addr().(*net.TCPAddr).Port)
-			l.Close()
+	if c.Occupied == 0 {
+		// a known port, so the listener can be probed even if it never reports its address. The port stays reserved for
+		// this case (the service binds with SO_REUSEPORT, see package portres): while the service does not listen a
+		// connect is refused, and no listener of a concurrently running check can get the port and answer a probe.
+		if r, err := portres.Reserve(); err == nil {
+			port = uint32(r.Port)
+			defer r.Release()
 		}
 	}
 	if c.Occupied > 0 {
@@ -155,20 +159,25 @@ func checkStop(c stopCase) (nt bool, v *verdict) {
 		}()
 	}
 	var p proc.Proc
+	var svcName string
 	if c.Kind == "redis" {
 		cfg := sim.RedisConfig(sim.ProxyOpts{ConnectTimeout: 100 * time.Millisecond})
 		cfg.Listener.Address.Port = port
-		pp, err := proc.New(fmt.Sprintf("c09r%d", atomic.AddInt64(&nameCtr, 1)), cfg, []*host.Host{host.New(backendAddr)})
+		name := fmt.Sprintf("c09r%d", atomic.AddInt64(&nameCtr, 1))
+		statpurge.Sweep()
+		pp, err := proc.New(name, cfg, []*host.Host{host.New(backendAddr)})
 		if err != nil {
 			return false, &verdict{"proc-construct", err.Error()}
 		}
 		p = pp
+		svcName = name
 	} else {
 		px, err := tcpsim.New(tcpsim.Opts{Hosts: []*host.Host{host.New(backendAddr)}, IdleTimeout: time.Second, Port: port})
 		if err != nil {
 			return false, &verdict{"proc-construct", err.Error()}
 		}
 		p = px.P
+		svcName = px.Name
 	}
 	// schedule: stop at a pause point
 	stopCalled := make(chan struct{})
@@ -214,6 +223,7 @@ func checkStop(c stopCase) (nt bool, v *verdict) {
 					}
 				}
 				p.Stop()
+				statpurge.MarkStopped(svcName)
 				close(stopReturned)
 			}()
 		})
